@@ -67,6 +67,13 @@ class C19(FlowCheck):
             flat([L(10), ['W', ['<', V(1), 3]], ['=', 1, ['+', V(1), 1]], ['=', 0, ['-', 5, V(1)]],
                   L(20), ['F', 4, 1, V(0), 1], ['P', V(4)], ['IF', ['=', V(1), 1], 40],
                   L(30), ['N', [4]], L(40), ['D']]),
+            # boundary line numbers as jump targets: IF c THEN 0 / ELSE 0 / GOTO 0 / GOSUB 0 / ON..0, and 65529
+            flat([L(0), ['=', 2, ['+', V(2), 1]], ['P', V(2)], ['IF', ['>', V(2), 2], 65529], L(10), ['IF', 1, 0],
+                  ['P', 11], L(65529), ['P', 99]]),
+            flat([L(0), ['=', 2, ['+', V(2), 1]], ['P', V(2)], ['IF', ['>', V(2), 2], 65529], L(10), ['IF', 0, 65529],
+                  ['EL', 0], ['P', 12], L(65529), ['P', 99]]),
+            flat([L(0), ['P', 1], ['R', None], L(10), ['GS', 0], ['ON', 1, 1, [0]], ['ON', 2, 0, [0, 65529]], ['P', 5],
+                  L(65529), ['P', 99]]),
             # D19a: zero-trip inner loop closed by NEXT J, I
             flat([L(10), ['F', 4, 1, 2, 1], ['F', 5, 2, 1, 1], ['P', 9], ['N', [5, 4]], L(20), ['P', 4]]),
             # D19b: counter leaves the 16-bit range downwards / upwards
